@@ -30,11 +30,12 @@ ASSUMPTIONS = [
     'attribute values are single-line strings',
 ]
 HOOKS = ['writer.return', 'text.parse', 'reader.return', 'auto.return',
+         'scaled-source.return',
          'second-cycle.return', 'edited-cycle.return']
 MIN_DISTINCT = {'quick': 200, 'thorough': 4000}
 N = {'quick': 400, 'thorough': 8000}
 JOBS = {'quick': 8}
-CODES = [-9, -999, -9999, -99999, -9999999, -99999999]
+CODES = [-9, -999, -9999, -99999, -9999999, -99999999, 0, -8888]
 COMMENTS = ['PI_CONTACT_INFO', 'PLATFORM', 'LOCATION', 'ASSOCIATED_DATA',
             'INSTRUMENT_INFO', 'DATA_INFO', 'UNCERTAINTY', 'REVISION']
 
@@ -105,7 +106,10 @@ def build(spec):
             vals = np.float64(1.2345675) * vs['mag'] * np.sign(
                 rng.normal(0, 1, n) + 0.1)
         if n > 2:
-            vals[int(rng.integers(n))] = 0.0
+            # (a valid value that equals the missing code is not
+            # representable in the format: no valid zeros under code 0)
+            vals[int(rng.integers(n))] = 0.0 if float(vs['code']) != 0 \
+                else 2.5e-7
         if vs.get('nearcode') and n > 1:
             code = float(vs['code'])
             near = code * (1 - 3e-6) if code != 0 else 5e-9
@@ -382,6 +386,44 @@ def run(spec, res):
             except Exception as e:
                 res.hook('second-cycle.return')
                 problems.append('second write/read cycle raised %r' % (e,))
+        if g is not None and not problems and spec['seed'] % 3 == 0:
+            # a source whose header DECLARES scale factors (instrument files
+            # do): the text is the writer's own, with line 11 edited.  The
+            # reader owes data x factor; a written copy must read back the
+            # very same values (the factors are spent)
+            try:
+                lines = text.split('\n')
+                nd = len(spec['vars'])
+                facs = [[0.1, 10.0, 1000.0, 1.0, 0.5][
+                    (spec['seed'] // 3 + i) % 5] for i in range(nd)]
+                lines[10] = ', '.join(repr(x) for x in facs)
+                ps = os.path.join(d, 's.ict')
+                with open(ps, 'w') as fh:
+                    fh.write('\n'.join(lines))
+                gs = ffi1001(ps)
+                res.hook('scaled-source.return')
+                ss = snap(gs)
+                want = {k: dict(v) for k, v in after.items()}
+                for i, vs in enumerate(spec['vars']):
+                    want[vs['name']] = dict(
+                        want[vs['name']],
+                        data=want[vs['name']]['data'] * facs[i])
+                sp = compare(want, ss, 'Start_UTC', 'source with scale '
+                             'factors %s' % facs)
+                problems += sp
+                if not sp:
+                    p4 = os.path.join(d, 'd.ict')
+                    o = ncf2ffi1001(gs, p4)
+                    o.close()
+                    g4 = ffi1001(p4)
+                    res.hook('scaled-source.return')
+                    problems += compare(ss, snap(g4), 'Start_UTC',
+                                        'copy of a source with scale '
+                                        'factors %s' % facs)
+            except Exception as e:
+                res.hook('scaled-source.return')
+                problems.append('source with scale factors: raised %r'
+                                % (e,))
     res.ev(dg, nontriv, ['nrec:%d' % spec['nrec'],
                          'nvar:%d' % len(spec['vars']),
                          'ncom:%d' % len(spec['comments'])])
